@@ -204,6 +204,18 @@ def run_loop(engine, st, stmt, ctl):
         engine.oblige(st, g, f"loop {k} invariant {j} holds on entry: {inv}", "inv-entry", stmt)
     # 2. arbitrary iteration
     names, paths = modified_paths(engine, stmt.body)
+    if isinstance(stmt, ast.For):
+        # the element function of the iterable was fixed at loop entry: a body that
+        # changes the container it iterates is outside this model
+        itx = stmt.iter
+        while isinstance(itx, ast.Call) and isinstance(itx.func, ast.Name) and itx.func.id in ("enumerate", "reversed", "list", "tuple", "sorted", "zip") and itx.args:
+            itx = itx.args[0]
+        if isinstance(itx, ast.Call) and isinstance(itx.func, ast.Attribute) and itx.func.attr in ("items", "values", "keys"):
+            itx = itx.func.value
+        rp_it = _root_path(itx) if isinstance(itx, (ast.Name, ast.Attribute, ast.Subscript)) else None
+        if rp_it is not None and (any(rp_it[: len(q)] == q or q[: len(rp_it)] == rp_it for q in paths) or (len(rp_it) == 1 and rp_it[0] in names)):
+            if not getattr(ctl, "tracks_current", False):
+                raise Unsupported(f"loop {k} (line {engine.line(stmt)}) modifies the container it iterates")
     names |= set(ctl.hidden())
     names |= set(spec.ghosts)
     if isinstance(stmt, ast.For):
